@@ -343,13 +343,19 @@ def scenario(inst, V):
         r = c01.observe_check(t2, PyTree[jt.Float[TickArr, "?a"], "T2"])
         V.check("probe-qmark-use", r == D.ACC, got=str(r))
 
-    if in_ctx:
-        with jaxtyped("context"):
+    try:
+        if in_ctx:
+            with jaxtyped("context"):
+                run_history()
+                probes()
+        else:
             run_history()
             probes()
-    else:
-        run_history()
-        probes()
+    except (core.PathAbort, core.Unsupported, core.Nondeterminism, core.StopPath):
+        raise
+    except Exception as e:  # noqa
+        # e.g. the enclosing block's own frame was taken away by an earlier operation
+        V.check("probe-toplevel", False, why="exception escaped the probing context: " + repr(e))
     top = base.bindings()
     V.check("probe-toplevel", not (top["single"] or top["variadic"] or top["pytree"]), bindings=repr(top))
     return dict(history=obs)
